@@ -6,7 +6,7 @@ import re
 
 from ..program import AnalysisError, walk_local, dotted
 from ..analysis import Spec, src, const_value
-from ..rules import (first_rest, value_leaves, string_template, cond_branches, canon, cond_equiv, positional_args, substitute_locals, template_sites, GWF, EXC, mpt, need_func, stores_to, is_const, kw,
+from ..rules import (inside, first_rest, value_leaves, string_template, cond_branches, canon, cond_equiv, positional_args, substitute_locals, template_sites, GWF, EXC, mpt, need_func, stores_to, is_const, kw,
                      parent_map, raise_class, substitute_locals)
 from . import common, c18
 from .c12 import _first_exit
@@ -441,50 +441,104 @@ def declined_cleanup(prog, an, rep):
             src(n.ast).endswith('.decline()')]
     rep.floor('C19 decline sites in handle_declined_pull_request',
               len(decl), 1)
-    # roles: for <name>, <target> in zip(<names>, <targets>) where
-    # <targets> = job.git.cascade.dst_branches and <names> = ['w/<target
-    # version>/<source of this PR>' for each target]
+    # roles: (name, target) pairs -- target ranges over
+    # job.git.cascade.dst_branches and name is 'w/<target version>/<source
+    # of this PR>' -- walked by one loop or by several, written as
+    # zip(<names>, <targets>) or as one list of pairs
     job = f.params[0]
-    outer = None
+    source = job + '.pull_request.src_branch'
+    targets = job + '.git.cascade.dst_branches'
+
+    def named_after(elt, var, it):
+        t = string_template(elt)
+        return t is not None and t[0] == 'w/{}/{}' and \
+            src(t[1][0]) == var + '.version' and \
+            canon(f, t[1][1]) == source and canon(f, it) == targets
+
+    def pair_source(it):
+        """The text that stands for the list of names when `it` yields the
+        (name, target) pairs of this pull request, else None."""
+        if isinstance(it, ast.Call) and src(it.func) == 'zip' and \
+                len(it.args) == 2 and \
+                all(isinstance(a, ast.Name) for a in it.args):
+            nv, dv_ = (a.id for a in it.args)
+            ns = [v for _, v in stores_to(f, nv) if v is not None]
+            ds = [canon(f, v) for _, v in stores_to(f, dv_)
+                  if v is not None]
+            if len(ns) == 1 and isinstance(ns[0], ast.ListComp) and \
+                    len(ns[0].generators) == 1 and \
+                    not ns[0].generators[0].ifs and ds == [targets] and \
+                    named_after(ns[0].elt, src(ns[0].generators[0].target),
+                                ns[0].generators[0].iter):
+                return nv
+            return None
+        if isinstance(it, ast.Name):
+            vs = [v for _, v in stores_to(f, it.id) if v is not None]
+            if len(vs) == 1 and isinstance(vs[0], ast.ListComp) and \
+                    len(vs[0].generators) == 1 and \
+                    not vs[0].generators[0].ifs and \
+                    isinstance(vs[0].elt, ast.Tuple) and \
+                    len(vs[0].elt.elts) == 2:
+                g = vs[0].generators[0]
+                if src(vs[0].elt.elts[1]) == src(g.target) and \
+                        named_after(vs[0].elt.elts[0], src(g.target),
+                                    g.iter):
+                    return '[first for first, _ in %s]' % it.id
+        return None
+
+    pair_loops = []
     for lp in walk_local(f.node, include_root=False):
         if isinstance(lp, ast.For) and isinstance(lp.target, ast.Tuple) and \
-                len(lp.target.elts) == 2 and isinstance(lp.iter, ast.Call) \
-                and src(lp.iter.func) == 'zip' and len(lp.iter.args) == 2 \
-                and all(isinstance(a, ast.Name) for a in lp.iter.args):
-            outer = lp
-    rep.check(outer is not None, R, f.qname + ': one pass over (name, '
-              'target) pairs', f.where(), 'outer loop changed')
-    if outer is None:
-        return
-    nm, dv = (e.id for e in outer.target.elts)
-    names_v, dsts_v = (a.id for a in outer.iter.args)
-    names = [v for _, v in stores_to(f, names_v) if v is not None]
-    dsts = [canon(f, v) for _, v in stores_to(f, dsts_v) if v is not None]
-    ok = False
-    if len(names) == 1 and isinstance(names[0], ast.ListComp) and \
-            len(names[0].generators) == 1:
-        g = names[0].generators[0]
-        t = string_template(names[0].elt)
-        ok = src(g.iter) == dsts_v and not g.ifs and t is not None and \
-            t[0] == 'w/{}/{}' and \
-            src(t[1][0]) == src(g.target) + '.version' and \
-            canon(f, t[1][1]) == job + '.pull_request.src_branch'
+                len(lp.target.elts) == 2 and \
+                all(isinstance(e, ast.Name) for e in lp.target.elts):
+            names_text = pair_source(lp.iter)
+            if names_text is not None:
+                pair_loops.append((lp, names_text))
     rep.evaluated()
-    rep.check(ok and dsts == [job + '.git.cascade.dst_branches'], R,
-              f.qname + ': names range over this pull request\'s targets',
-              f.where(), '%s = %s over %s' % (
-                  names_v, [src(v) for v in names], dsts))
+    rep.check(bool(pair_loops), R, f.qname + ': walks the (name, target) '
+              'pairs of this pull request', f.where(), 'no loop over the '
+              "w/<version>/<source> names of this pull request's targets")
+    if not pair_loops:
+        return
+
+    def loop_of(node):
+        for lp, names_text in pair_loops:
+            if inside(lp, node):
+                return lp, names_text
+        return None, None
+
+    def same_names(e, names_text):
+        if e is None:
+            return False
+        if isinstance(e, ast.Name):
+            return e.id == names_text
+        if isinstance(e, (ast.ListComp, ast.GeneratorExp)) and \
+                len(e.generators) == 1 and not e.generators[0].ifs and \
+                isinstance(e.generators[0].target, ast.Tuple) and \
+                len(e.generators[0].target.elts) == 2 and \
+                src(e.elt) == src(e.generators[0].target.elts[0]):
+            return '[first for first, _ in %s]' % \
+                src(e.generators[0].iter) == names_text
+        return False
     for n in decl:
         call = [x for x in ast.walk(n.ast) if isinstance(x, ast.Call) and
                 isinstance(x.func, ast.Attribute) and
                 x.func.attr == 'decline'][0]
+        outer, names_text = loop_of(n.ast)
+        rep.check(outer is not None, R, f.qname + ': declines inside the '
+                  'walk over the pairs', f.where(n), 'a pull request is '
+                  'declined outside the walk over this pull request\'s w/ '
+                  'names')
+        if outer is None:
+            continue
+        nm, dv = (e.id for e in outer.target.elts)
         pr = src(call.func.value)
         # the pull request may be picked by a search loop first
         # (found = None; for p in prs: if ...: found = p; break)
-        names = [v.id for v in value_leaves(f, call.func.value)
-                 if isinstance(v, ast.Name)]
-        if names and pr not in names:
-            pr = names[0]
+        leaves = [v.id for v in value_leaves(f, call.func.value)
+                  if isinstance(v, ast.Name)]
+        if leaves and pr not in leaves:
+            pr = leaves[0]
         conds = {
             'status OPEN': "%s.status == 'OPEN'" % pr,
             'source is this w/ name': '%s.src_branch == %s' % (pr, nm),
@@ -507,8 +561,8 @@ def declined_cleanup(prog, an, rep):
         okl = any(isinstance(y, ast.Call) and
                   isinstance(y.func, ast.Attribute) and
                   y.func.attr == 'get_pull_requests' and
-                  src(kw(y, 'src_branch') or ast.Constant(value=0)) ==
-                  names_v for v in lst for y in ast.walk(v))
+                  same_names(kw(y, 'src_branch'), names_text)
+                  for v in lst for y in ast.walk(v))
         rep.check(okl, R, f.qname + ': examines the pull requests of these '
                   'names', f.where(n), 'pull requests come from %s' %
                   [src(v) for v in lst])
@@ -520,10 +574,11 @@ def declined_cleanup(prog, an, rep):
            not n.ast.value.args and not n.ast.value.keywords]
     wbv = src(rms[0].ast.value.func.value) if len(rms) == 1 else None
     wb = [v for _, v in stores_to(f, wbv) if v is not None] if wbv else []
-    ok = len(rms) == 1 and len(wb) == 1 and \
+    rloop = loop_of(rms[0].ast)[0] if len(rms) == 1 else None
+    ok = len(rms) == 1 and len(wb) == 1 and rloop is not None and \
         isinstance(wb[0], ast.Call) and \
         src(wb[0].func) == 'branch_factory' and len(wb[0].args) == 2 and \
-        src(wb[0].args[1]) == nm
+        src(wb[0].args[1]) == rloop.target.elts[0].id
     rep.evaluated()
     rep.check(ok, R, f.qname + ': removes exactly the branch of that name',
               f.where(), 'removes %s bound to %s' % (
@@ -534,6 +589,21 @@ def declined_cleanup(prog, an, rep):
         rep.check(ok and bool(ex), R, f.qname + ': removes only an existing '
                   'branch', f.where(n), 'remove without exists()',
                   path=c.describe_path(path))
+    # whatever was declined or removed is published: from each such site
+    # every way out of the function goes through the push
+    pushed = an.gate_nodes(f, Spec.func('bert_e.workflow.git_utils.push'),
+                           depth=0)
+    for n in decl + rms:
+        for d in c.done_of(n):
+            for out in (c.exit, c.raise_exit):
+                rep.evaluated()
+                ok, path = c.must_pass(pushed, out, use_exc=False, start=d)
+                rep.check(ok and bool(pushed), R, f.qname + ': what was '
+                          'declined / removed is published', f.where(n),
+                          'after `%s` the function can end without the push '
+                          'that publishes the removal (the w/ branch stays '
+                          'on the remote)' % src(n.ast)[:40],
+                          path=c.describe_path(path))
     pushes = an.direct_calls(f, Spec.func('bert_e.workflow.git_utils.push'))
     rep.check(len(pushes) == 1, R, f.qname + ': one publication',
               f.where(), '%d pushes' % len(pushes))
